@@ -409,6 +409,67 @@ pub fn confined_position(rng: &mut Rng) -> ([u8; 64], Vec<usize>) {
     }
 }
 
+/// C04: every combination of the five win conditions that can be realised with a few pieces.
+pub fn results_family() -> Vec<([u8; 64], bool)> {
+    let mut out = Vec::new();
+    for gold_to_move in [true, false] {
+        for ga in 0..9usize {
+            // ga < 8: a Gold rabbit on rank 8, file ga
+            for sa in 0..9usize {
+                for other in 0..4usize {
+                    // other bit 0: Gold has another rabbit (at home); bit 1: Silver has one
+                    let mut c = [0u8; 64];
+                    c[49] = 6; // Eb2
+                    c[14] = 12; // eg7
+                    if ga < 8 {
+                        c[ga] = 1;
+                    }
+                    if sa < 8 {
+                        c[56 + sa] = 7;
+                    }
+                    if other & 1 == 1 {
+                        c[48] = 1; // Ra2
+                    }
+                    if other & 2 == 2 {
+                        c[15] = 7; // rh7
+                    }
+                    out.push((c, gold_to_move));
+                }
+            }
+        }
+        // the mover cannot move: a lone rabbit frozen in the corner (and blocked), with the opponent
+        // having rabbits or not, and with/without an opponent rabbit on its goal
+        for opp_rabbits in [false, true] {
+            for opp_goal in [false, true] {
+                let mut c = [0u8; 64];
+                if gold_to_move {
+                    c[56] = 1; // Ra1
+                    c[48] = 9; // da2 freezes it, and blocks the way north
+                    c[57] = 8; // cb1 blocks the way east
+                    if opp_rabbits {
+                        c[8] = 7;
+                    }
+                    if opp_goal {
+                        c[63] = 7;
+                    }
+                } else {
+                    c[0] = 7; // ra8
+                    c[8] = 3; // Da7
+                    c[1] = 2; // Cb8
+                    if opp_rabbits {
+                        c[55] = 1;
+                    }
+                    if opp_goal {
+                        c[7] = 1;
+                    }
+                }
+                out.push((c, gold_to_move));
+            }
+        }
+    }
+    out
+}
+
 /// parse a position given as cells through the engine's own parser
 pub fn state_from_cells(c: &[u8; 64], gold: bool, mn: usize) -> Result<GameState, String> {
     state_from_cells_styled(c, gold, mn, 0)
